@@ -28,6 +28,94 @@ def run(ctx, rep):
     r2(ctx, rep)
     r3(ctx, rep)
     r4(ctx, rep)
+    r6(ctx, rep)
+
+
+def r6(ctx, rep):
+    """Pickling stores a class by `module.qualname` and finds it again by attribute lookup.  A class statement at module or class
+    level gets the right qualname from the compiler; a class built inside a function and then *published* as an attribute of
+    another class (`Predicate.System = SystemPredicate`) is found again only if its `__qualname__` is set to the path it is
+    published under.  System predicates carry that class in a slot, so every item containing one pickles through it.
+    Also folded: `__getnewargs__` hands `__new__` the item's own spec."""
+    m = ctx.m
+    R6 = rep.rule('C14.R6', 'pickle by reference: a class defined inside a function and published as an attribute of another class has its __qualname__ '
+                            '(and __module__, if assigned) set to the path it is published under; __getnewargs__ returns the spec')
+    n = 0
+    for mod in (LEX, COL, LANG):
+        tree = m.trees[mod]
+        toplevel = {st.name for st in ast.walk(tree) if isinstance(st, ast.ClassDef)}
+        for qn, fn in astq.all_functions(tree):
+            local = [c for st in astq.walk_no_nested(fn) for c in ast.iter_child_nodes(st) if isinstance(c, ast.ClassDef)]
+            if not local:
+                continue
+            encl = qn.split('.<locals>')[0].rsplit('.', 1)[0] if '.' in qn.split('.<locals>')[0] else None
+            for lc in local:
+                pubs, qsets, msets = [], [], []
+                for st in astq.walk_no_nested(fn):
+                    if isinstance(st, ast.Assign) and isinstance(st.value, ast.Name) and st.value.id == lc.name:
+                        for t in st.targets:
+                            if isinstance(t, ast.Attribute) and isinstance(t.value, ast.Name):
+                                pubs.append((t.value.id, t.attr, st))
+                    if isinstance(st, ast.Call) and isinstance(st.func, ast.Name) and st.func.id == 'setattr' and len(st.args) == 3 and \
+                            isinstance(st.args[2], ast.Name) and st.args[2].id == lc.name and isinstance(st.args[0], ast.Name) and \
+                            isinstance(st.args[1], ast.Constant):
+                        pubs.append((st.args[0].id, st.args[1].value, st))
+                    if isinstance(st, ast.Assign) and len(st.targets) == 1 and isinstance(st.targets[0], ast.Attribute) and \
+                            isinstance(st.targets[0].value, ast.Name) and st.targets[0].value.id == lc.name:
+                        if st.targets[0].attr == '__qualname__':
+                            qsets.append(st)
+                        elif st.targets[0].attr == '__module__':
+                            msets.append(st)
+                if not pubs:
+                    continue
+                n += 1
+                rep.consult(f'{m.loc(mod, lc)} {qn} class {lc.name}')
+                env = {c: Obj(c, __name__=c.rsplit('.', 1)[-1], __qualname__=c, __module__=mod) for c in toplevel}
+                if encl:
+                    env['cls'] = Obj(encl, __name__=encl.rsplit('.', 1)[-1], __qualname__=encl, __module__=mod)
+                env['__name__'] = mod
+                it = Interp(dict(env), where=f'{mod} {qn}')
+                want = set()
+                for owner, attr, _st in pubs:
+                    o = env.get(owner)
+                    if o is not None:
+                        want.add(f'{o.__qualname__}.{attr}')
+                if not want:
+                    raise AnalysisError(f'{mod} {qn}: class {lc.name} is published under {[(o_, a_) for o_, a_, _ in pubs]}, owner not resolved')
+                if not qsets:
+                    got = f'{qn}.<locals>.{lc.name}'
+                else:
+                    try:
+                        got = it.ev(qsets[-1].value, dict(env))
+                    except Exception as e:
+                        raise AnalysisError(f'{mod} {qn}: `{astq.u(qsets[-1])}` does not fold: {e}')
+                ok = got in want
+                rep.instance(R6, ok=ok, nontrivial=(mod, qn, lc.name))
+                if not ok:
+                    rep.finding(R6, f'C14.R6/{mod}:{qn}/{lc.name}/qualname', m.loc(mod, qsets[-1] if qsets else lc), qn,
+                                f'class {lc.name} is published as {sorted(want)} but its __qualname__ is {got!r}: pickle looks the class up by that path and '
+                                f'fails, so every item that carries the class (a system predicate and any sentence or argument containing one) cannot be pickled')
+                for st in msets:
+                    try:
+                        gotm = it.ev(st.value, dict(env))
+                    except Exception as e:
+                        raise AnalysisError(f'{mod} {qn}: `{astq.u(st)}` does not fold: {e}')
+                    okm = gotm == mod
+                    rep.instance(R6, ok=okm, nontrivial=(mod, qn, lc.name, '__module__'))
+                    if not okm:
+                        rep.finding(R6, f'C14.R6/{mod}:{qn}/{lc.name}/module', m.loc(mod, st), qn, f'class {lc.name} lives in {mod} but its __module__ is set to {gotm!r}')
+    gna, owner = m.method(ClassRef(LEX, 'Predicated'), '__getnewargs__')
+    if gna is None or not hasattr(gna, 'node'):
+        raise AnalysisError('lex.py: no __getnewargs__ reachable from Predicated')
+    rep.consult(m.floc(gna) + f' {gna.qualname}')
+    itg = Interp({}, where='__getnewargs__')
+    spec = ('SPEC', 1)
+    r = itg.safe(gna.node, [Obj('item', spec=spec, ident=('Cls', spec), sort_tuple=(9, 9))])
+    ok = r == spec
+    rep.instance(R6, ok=ok, nontrivial='__getnewargs__')
+    if not ok:
+        rep.finding(R6, 'C14.R6/__getnewargs__', m.floc(gna), gna.qualname, f'returns {r!r}, not the item\'s spec: unpickling / copying rebuilds another item')
+    rep.floor('C14.R6', 'published local classes', n, 1)
 
 
 def r1(ctx, rep):
